@@ -77,6 +77,70 @@ def r1_vacant_only(rep, facts):
                 rep.bad(R, f'{fn}|IndexMut', f'`{fn}` uses mutable indexing on a table (auto-vivifying, overwrite-capable)', facts.loc(b, n))
 
 
+KEYED_OPS = {'remove', 'remove_entry', 'get', 'get_mut', 'contains_key', 'entry', 'entry_format', 'shift_remove', 'shift_remove_entry', 'get_key_value', 'get_key_value_mut',
+             'contains_table', 'contains_value', 'contains_array_of_tables', 'key', 'key_mut', 'get_full', 'get_index_of', 'swap_remove', 'insert', 'insert_formatted', 'insert_full'}
+KEYED_TYPES = ('toml_edit::table::Table', 'toml_edit::inline_table::InlineTable', 'indexmap::map::IndexMap')
+NAME_PASSTHROUGH = {'as_str', 'as_ref', 'clone', 'to_owned', 'to_string', 'into', 'borrow', 'deref', 'as_deref'}
+
+
+def r7_one_name(rep, facts):
+    R = rep.rule('C09/R7', 'a key has one identity, its decoded name: every lookup, removal and entry of the parser\'s semantic layer is keyed by the Key itself '
+                 '(whose Hash / Eq / Ord / Borrow read nothing but `get()`) or by a string that comes from `Key::get()`; a lookup by the written form '
+                 '(display_repr, the raw text) misses an existing definition spelled differently or needing quotes, and the duplicate passes unnoticed', floor=12)
+    from .shared import local_origins
+    for d in SCOPE:
+        b = facts.body(d)
+        fn = d.replace(P, '')
+        origins = local_origins(b['body'])
+        k = 0
+        for n in walk(b['body']):
+            if n.get('k') != 'mcall' or n.get('name') not in KEYED_OPS or not n.get('args'):
+                continue
+            cs = [strip_generics(c) for c in callee_all(n)]
+            if not cs or not cs[0].startswith(KEYED_TYPES):
+                continue
+            a = peel(n['args'][0])
+            t = (a.get('t') or '').replace('&', '').replace('mut ', '').strip()
+            if t.startswith('toml_edit::key::Key'):
+                k += 1
+                rep.ok(R, f'{fn}|{n["name"]}#{k}', 'keyed by the Key', facts.loc(b, n))
+                continue
+            if not (t.startswith('str') or 'String' in t or 'Cow' in t):
+                continue
+            k += 1
+            cur, via = a, []
+            for _ in range(12):
+                cur = peel(cur)
+                if cur.get('k') == 'path' and cur.get('res') == 'Local' and cur.get('path') in origins:
+                    cur = origins[cur['path']]
+                    continue
+                if cur.get('k') == 'mcall' and cur.get('name') in NAME_PASSTHROUGH and not any(strip_generics(c).startswith('toml_edit::') for c in callee_all(cur)):
+                    cur = cur['recv']
+                    continue
+                break
+            src = [strip_generics(c) for c in callee_all(cur)] if cur.get('k') in ('mcall', 'call') else []
+            ok = bool(src) and src[0] == 'toml_edit::key::Key::get'
+            rep.check(R, f'{fn}|{n["name"]}#{k}', ok, 'keyed by key.get()', f'`{fn}` looks an entry up ({n["name"]}) by `{src[0] if src else cur.get("k")}` instead of the key\'s decoded name: '
+                      f'a table already defined under a name that needs quotes (`"a b"`) or is spelled with other quotes is not found, so a header reopening it is accepted', facts.loc(b, n))
+    # the Key's own identity
+    for tr, m in (('core::hash::Hash', 'hash'), ('core::cmp::PartialEq', 'eq'), ('core::cmp::Ord', 'cmp'), ('core::borrow::Borrow', 'borrow')):
+        found = False
+        for imp in facts.impls:
+            if (imp.get('trait') or '').split('<')[0] != tr or imp.get('self_ty') != 'toml_edit::key::Key':
+                continue
+            for it in imp['items']:
+                if it['name'] != m or not facts.has_body(it['def']):
+                    continue
+                found = True
+                b = facts.body(it['def'])
+                reads = sorted({x.get('name') for x in walk(b['body']) if (x.get('k') == 'mcall' and strip_generics((callee_all(x) or [''])[0]).startswith('toml_edit::key::Key::')) or
+                                (x.get('k') == 'field' and 'toml_edit::key::Key' in (peel(x['base']).get('t') or ''))})
+                rep.check(R, f'Key|{tr.rsplit("::", 1)[-1]}|{imp.get("trait_args") or it["def"]}', set(reads) <= {'get', 'key'} and bool(reads), f'reads {reads}',
+                          f'`{it["def"]}` reads {reads} of the key: two spellings of one name are different keys (or different names the same key) for the tables', facts.loc(b))
+        if tr != 'core::borrow::Borrow' and not found:
+            rep.incomplete(R, f'Key|{tr}', f'impl {tr} for Key not found')
+
+
 def arm_returns_err(arm_body):
     """the arm diverges with `return Err(..)` (directly or through `?` on an Err-producing expression)"""
     for n in walk(arm_body):
@@ -197,36 +261,112 @@ def atoms_flags(x):
     return None
 
 
-def r3_truth_tables(rep, facts):
+def _walk_kinds(facts, ev, d):
+    """(name of the parameter that says which kind of walk this is, {'dotted' / 'header': the value callers pass for it}): a key/value line walks
+    with the dotted kind, the header functions with the other; the parameter may be a bool or a private two-variant enum"""
+    b = facts.body(d)
+    ps = [p_ for p_ in b.get('params', []) if p_.get('k') == 'p_bind']
+    if len(ps) < 3:
+        return None, {}
+    pname = ps[2]['name']
+    out = {}
+    it = Interp(ev)
+    for cd, cb in facts.bodies.items():
+        if not cd.startswith(P):
+            continue
+        for x in walk(cb['body']):
+            if x.get('k') == 'call' and any(strip_generics(c) == d for c in callee_all(x)) and len(x.get('args', [])) >= 3:
+                try:
+                    v = it.run(x['args'][2], {})
+                except Unanalysable:
+                    continue
+                label = 'dotted' if last_seg(cd) in ('on_keyval', 'table_from_pairs', 'inline_table_from_pairs') else 'header'
+                out.setdefault(label, v)
+    return pname, out
+
+
+def r3c_walk_model(rep, facts):
+    """the walk along a path, evaluated: ParseState::descend_path run on a one- and a two-segment path where every step finds the same kind of
+    entry (a value, an array of tables, an explicitly defined table, a header-implied table, a dotted-key table), for both kinds of walk.
+    Returns the set of functions decided this way."""
+    R = rep.rule('C09/R3c', 'the walk along a key path, evaluated on small trees for the header walk and the dotted-key walk: a value on the path stops both; '
+                 'a dotted key never walks into a table defined by its own header — a [table], or an element of an array of tables — and goes on from there; '
+                 'a header walks through tables and into the last element of an array of tables', floor=20)
+    from .den import RecInterp, EvalPanic, VecObj
+    ev = Evaluator(facts)
+    d = ST + 'descend_path'
+    b = facts.body(d)
+    pname, kinds = _walk_kinds(facts, ev, d)
+    if set(kinds) != {'dotted', 'header'}:
+        rep.incomplete(R, 'state::ParseState::descend_path', f'cannot tell the walk kinds the callers pass ({kinds})', facts.loc(b))
+        return set()
+    I = 'toml_edit::item::Item::'
+
+    def T(implicit, dotted, tag):
+        return ('struct', 'toml_edit::table::Table', {'implicit': implicit, 'dotted': dotted, 'items': (), 'tag': tag})
+
+    def entries():
+        yield 'a value', ('ctor', I + 'Value', (('ctor', 'toml_edit::value::Value::Integer', (('opaque',),)),))
+        yield 'an array of tables', ('ctor', I + 'ArrayOfTables', (('struct', 'toml_edit::array_of_tables::ArrayOfTables',
+                                                                    {'values': VecObj([('ctor', I + 'Table', (T(False, False, 'first'),)), ('ctor', I + 'Table', (T(False, False, 'last'),))])}),))
+        yield 'a [table]', ('ctor', I + 'Table', (T(False, False, 't'),))
+        yield 'a header-implied table', ('ctor', I + 'Table', (T(True, False, 't'),))
+        yield 'a dotted-key table', ('ctor', I + 'Table', (T(True, True, 't'),))
+    ERR, OK = 'core::result::Result::Err', 'core::result::Result::Ok'
+    try:
+        for kind in ('dotted', 'header'):
+            for n in (1, 2):
+                for name, e in entries():
+                    it = RecInterp(ev, set(), stubs={'or_insert_with': e, 'or_insert': e})
+                    path = tuple(('struct', 'toml_edit::key::Key', {'key': f'k{i}'}) for i in range(n))
+                    try:
+                        r = it.apply_fn(b, [T(False, False, 'start'), path, kinds[kind]])
+                    except EvalPanic as ex:
+                        rep.bad(R, f'{kind}|{n}|{name}', f'the {kind} walk over {n} segment(s) panics when it finds {name}: {ex}', facts.loc(b))
+                        continue
+                    is_err = isinstance(r, tuple) and r[:2] == ('ctor', ERR)
+                    is_ok = isinstance(r, tuple) and r[:2] == ('ctor', OK)
+                    if not (is_err or is_ok):
+                        raise Unanalysable(f'evaluates to {r!r:.60}')
+                    reached = r[2][0] if is_ok else None
+                    tag = reached[2].get('tag') if isinstance(reached, tuple) and len(reached) == 3 and reached[0] == 'struct' else None
+                    if name == 'a value':
+                        ok, want = is_err, 'an error'
+                    elif name == 'a [table]':
+                        ok, want = (is_err if kind == 'dotted' else tag == 't'), ('an error' if kind == 'dotted' else 'that table')
+                    elif name == 'an array of tables':
+                        if kind == 'header':
+                            ok, want = tag == 'last', 'its last element'
+                        elif n == 1:
+                            # the leaf guard of on_keyval (C09/R3 leaf-guard) refuses the element, which is no dotted-key table
+                            ok, want = is_err or (tag == 'last' and reached[2].get('dotted') is False), 'an error, or the last element for the leaf guard to refuse'
+                        else:
+                            ok, want = is_err, 'an error'
+                    else:
+                        ok, want = tag == 't', 'that table'
+                    got = 'an error' if is_err else f'the table `{tag}`'
+                    rep.check(R, f'{kind}|{n}|{name}', ok, f'{got}',
+                              f'`state::ParseState::descend_path`: the {kind} walk along {n} segment(s) that finds {name} gives {got}, TOML demands {want}: '
+                              + ('a dotted key extends a table that a header already defined' if kind == 'dotted' and not is_err else 'a definition TOML permits is refused, or the wrong table is extended'),
+                              facts.loc(b))
+    except Unanalysable as ex:
+        rep.incomplete(R, 'state::ParseState::descend_path', f'cannot evaluate the walk: {ex}', facts.loc(b))
+        return set()
+    return {d}
+
+
+def r3_truth_tables(rep, facts, modelled=()):
     R = rep.rule('C09/R3', 'guard truth tables equal what TOML 1.0.0 demands: dotted walk blocked by explicit tables, leaf insertion needs '
                  'dotted == path-non-empty, [t] reuses only header-implicit tables, attachment swaps only over implicit placeholders, '
                  'array of tables resolved to its last element, new tables flagged by walk kind', floor=10)
     ev = Evaluator(facts)
 
     def walk_kinds(d):
-        """(name of the parameter that says which kind of walk this is, {'dotted' / 'header': the value callers pass for it}): a key/value line walks
-        with the dotted kind, the header functions with the other; the parameter may be a bool or a private two-variant enum"""
-        b = facts.body(d)
-        ps = [p_ for p_ in b.get('params', []) if p_.get('k') == 'p_bind']
-        if len(ps) < 3:
-            return None, {}
-        pname = ps[2]['name']
-        out = {}
-        it = Interp(ev)
-        for cd, cb in facts.bodies.items():
-            if not cd.startswith(P):
-                continue
-            for x in walk(cb['body']):
-                if x.get('k') == 'call' and any(strip_generics(c) == d for c in callee_all(x)) and len(x.get('args', [])) >= 3:
-                    try:
-                        v = it.run(x['args'][2], {})
-                    except Unanalysable:
-                        continue
-                    label = 'dotted' if last_seg(cd) in ('on_keyval', 'table_from_pairs', 'inline_table_from_pairs') else 'header'
-                    out.setdefault(label, v)
-        return pname, out
+        return _walk_kinds(facts, ev, d)
     # descend_path (both): error <=> dotted walk && !implicit
     for d in (ST + 'descend_path', P + 'inline_table::descend_path'):
+        if d in modelled:
+            continue        # decided by evaluation (C09/R3c), which covers this guard and the array-of-tables arm
         b = facts.body(d)
         ifs = [n for n in walk(b['body']) if n.get('k') == 'if' and arm_returns_err(n['then'])]
         ok = False
@@ -358,8 +498,11 @@ def r3_truth_tables(rep, facts):
                         good = False
                 sel.append(good)
         detail = f'{len(sel)} element selections, last-element: {sel}'
-    rep.check(R, 'state::ParseState::descend_path|array-of-tables-last', len(sel) == 1 and sel[0], 'the arm for an array of tables continues in its last element (get_mut(len - 1) / last_mut())',
-              f'a path through an array of tables is no longer resolved to its last element ({detail})', facts.loc(b))
+    if ST + 'descend_path' in modelled:
+        pass            # C09/R3c evaluates which element the walk continues in
+    else:
+        rep.check(R, 'state::ParseState::descend_path|array-of-tables-last', len(sel) == 1 and sel[0], 'the arm for an array of tables continues in its last element (get_mut(len - 1) / last_mut())',
+                  f'a path through an array of tables is no longer resolved to its last element ({detail})', facts.loc(b))
     # new tables: flags by walk kind
     for d, want in ((ST + 'descend_path', {'set_implicit': True, 'set_dotted': 'dotted'}), (P + 'inline_table::descend_path', {'set_implicit': 'dotted', 'set_dotted': 'dotted'})):
         b = facts.body(d)
@@ -464,10 +607,12 @@ def rules(rep, facts):
         return
     r1_vacant_only(rep, facts)
     r2_occupied_is_error(rep, facts)
-    r3_truth_tables(rep, facts)
+    modelled = r3c_walk_model(rep, facts)
+    r3_truth_tables(rep, facts, modelled)
     r3b_accessors(rep, facts)
     r4_plumbing(rep, facts)
     r6_flag_targets(rep, facts)
+    r7_one_name(rep, facts)
 
 
 def run(tier):
